@@ -26,6 +26,7 @@ class Ans:
         self.H = None; self.r = self.n = None
         self.LN = None; self.Y = None; self.B = ""
         self.steps = []      # (status, complete, srcmask, repmask)
+        self.Fdig = None
         self.dig = []        # digest of the decoder's internal state after each submission call (LDPC / 2D)
         self.F = None
         self.ED = None
@@ -60,6 +61,8 @@ class Ans:
                     self.dig.append(parts[3] if len(parts) > 3 else None)
                 else:
                     self.F = rec
+                    if len(parts) > 3:
+                        self.Fdig = parts[3]
             elif tok.startswith("ED"):
                 self.ED = int(tok[2:])
             elif tok.startswith("E"):
